@@ -50,7 +50,7 @@ class LoggingRollbackFailureManager(RollbackFailureManager):
         sim = core.CURRENT
         sim.log("RECOVER_CALL", job.name, step.name)
         sim.probe("recover_calls")
-        if not isinstance(exception, WorkflowExecutionException):
+        if not isinstance(exception, WorkflowExecutionException) and not getattr(exception, "_sfsim_injected", False):
             # injected faults and missing inputs are WorkflowExecutionExceptions; anything else was raised by
             # repo/harness code tripping over state another recovery changed under it (probe only: not in the digest)
             sim.probe("recover_unexpected:" + type(exception).__name__)
@@ -70,6 +70,22 @@ failure_manager_classes["simrollback"] = LoggingRollbackFailureManager
 class SimFileToken(FileToken):
     async def get_paths(self, context):
         return [self.value]
+
+
+def injected_exception(fault, where):
+    """The exception an injected failure raises: a WorkflowExecutionException by default; fault["exc"] selects another type
+    a real deployment produces (a command or connection that times out, an OS-level error, any other error)."""
+    kind = fault.get("exc", "wfe")
+    if kind == "timeout":
+        e = asyncio.TimeoutError(f"Injected timeout into {where}")
+    elif kind == "oserror":
+        e = ConnectionResetError(f"Injected connection error into {where}")
+    elif kind == "runtime":
+        e = RuntimeError(f"Injected error into {where}")
+    else:
+        e = WorkflowExecutionException(f"Injected error into {where}")
+    e._sfsim_injected = True
+    return e
 
 
 class Ctl:
@@ -161,6 +177,8 @@ class SimCommand(Command):
         if fault is not None:
             c.apply(fault, "execute", job)
             sim.log("EXEC_END", job.name, n, "FAILED")
+            if fault.get("exc", "wfe") != "wfe":
+                raise injected_exception(fault, f"the command of {job.name}")   # e.g. connector.run(timeout=...) timing out
             return CommandOutput("Injected failure", Status.FAILED)
         tag = get_tag(job.inputs.values())
         try:
@@ -226,7 +244,7 @@ class SimScheduleStep(ScheduleStep):
         fault = ctl().next_fault("schedule", job.name)
         if fault is not None:
             ctl().apply(fault, "schedule", job)
-            raise WorkflowExecutionException(f"Injected error into {self.name} step")
+            raise injected_exception(fault, f"{self.name} step")
         await super()._set_job_directories(connector, locations, job)
 
 
@@ -259,7 +277,7 @@ class SimTransferStep(TransferStep):
         fault = ctl().next_fault("transfer", job.name)
         if fault is not None:
             ctl().apply(fault, "transfer", job)
-            raise WorkflowExecutionException(f"Injected error into {self.name} step")
+            raise injected_exception(fault, f"{self.name} step")
         return await self._move(job, token)
 
 
